@@ -98,9 +98,55 @@ fn set_area(cfg: &mut BusCfg, a: u32, width8: bool, three_state: bool, waits: u8
     cfg.drcra = (cfg.drcra & 0x1f) | (dras << 5);
 }
 
+/// Before anything was written: on a `Cpu` as `Cpu::new()` makes it, and again after the run loop's own
+/// initialisation, costs follow what the five settings registers *read* (an implementation that keeps decoded settings
+/// beside the registers must start out in agreement with them).
+fn power_on() -> Option<String> {
+    let r = guarded(|| {
+        let mut cpu = crate::cpu::Cpu::new();
+        for round in 0..2 {
+            let rd = |cpu: &mut crate::cpu::Cpu, a: u32| cpu.bus.read(a).map_err(|e| e.to_string());
+            let cfg = BusCfg { abwcr: rd(&mut cpu, 0xfee020)?, astcr: rd(&mut cpu, 0xfee021)?, wcrh: rd(&mut cpu, 0xfee022)?, wcrl: rd(&mut cpu, 0xfee023)?, drcra: rd(&mut cpu, 0xfee026)? };
+            for area in 0..8u32 {
+                for addr in area_addrs(area).into_iter().chain([0xffbf20u32, 0xffff1f]) {
+                    for (ki, kind) in KINDS.iter().enumerate() {
+                        let Some(unit) = cycle_cost(*kind, addr, &cfg) else { continue };
+                        match cpu.calc_state_with_addr(st(KINDS[ki]), 1, addr) {
+                            Ok(v) if v as u32 == unit => {}
+                            other => return Err(format!("{}: one cycle of kind {:?} at {:06x} with the registers reading {:?}: expected {} states, observed {:?}", if round == 0 { "fresh Cpu" } else { "after init_registers" }, kind, addr, cfg, unit, other.map_err(|e| e.to_string()))),
+                        }
+                    }
+                }
+            }
+            hooks::init_registers(&mut cpu).map_err(|e| e.to_string())?;
+        }
+        Ok(())
+    });
+    match r {
+        Ok(Ok(())) => None,
+        Ok(Err(m)) => Some(m),
+        Err(p) => Some(format!("panic: {}", p)),
+    }
+}
+
 pub fn run(ctx: &Ctx) -> i32 {
     if let Some(v) = &ctx.replay {
         let case = v.get("case").unwrap_or(v);
+        if case.get("kind").and_then(|k| k.as_str()) == Some("power-on") {
+            return match power_on() {
+                None => {
+                    println!("replay {}: power-on state passes", P);
+                    0
+                }
+                Some(m) => {
+                    let f = Failure { signature: "bus-cycle cost at power-on".into(), detail: m, case: case.clone() };
+                    let p = write_replay(P, &f);
+                    println!("VIOLATION property={} replay={}", P, p.display());
+                    println!("  detail: {}", f.detail);
+                    1
+                }
+            };
+        }
         let Some(c) = Case::from_json(case) else { return 2 };
         let mut emu = Emu::new(&ctx.base);
         return match eval(&mut emu, &c) {
@@ -347,6 +393,11 @@ pub fn run(ctx: &Ctx) -> i32 {
         stats
     });
     let mut stats = stats;
+    stats.evaluations += 1;
+    stats.class("power-on: costs follow what the settings registers read on a fresh Cpu and after init_registers");
+    if let Some(m) = power_on() {
+        stats.fail(Failure { signature: "bus-cycle cost at power-on".into(), detail: m, case: json!({"kind": "power-on"}) });
+    }
     stats.exhaustive_subspaces.insert("area (0-7, on-chip RAM) x width x access-state x wait field x DRAM select x kind x count 1-5 x address x {calc_state, calc_state_with_addr}".into(), stats.nontrivial_keys.len() as u64);
     let rule = "cases = for each of the eight areas and on-chip RAM: every value of the area's bus-width bit, access-state bit, wait field and the DRAM-area-select field (areas 3-5 only with select 0/1 - others are counted as skipped), all six cycle kinds, counts 1-5, the first / middle / last address of the area outside the on-chip I/O registers, through both calc_state (own-instruction address) and calc_state_with_addr - enumerated completely - each repeated under the all-zero, all-one and proptest-generated settings of all *other* areas' bits plus every one-bit flip of them (independence). Plus a transition walk per shard (4,000,000 quick / 60,000,000 thorough steps): every step changes at most one bus-controller register (written through Bus::write), then costs a cycle in the shard's area, with lookups anywhere else in the address space in between (history-dependent or late-following costs), and now and then a silent burst of 255-257 / 511-513 / 65535-65537 register writes without any lookup (change counters of 8 or 16 bits), stray writes to aliases of the registers, and changes of the rest of the machine (the bus controller's other registers, any other on-chip register, the levels at the port pins) which no cost may follow. Oracle = the cost rule of the statement written as a 10-line function. Non-trivial = every tuple (all differ from the 4 area-0 settings of the unit tests except those 4); distinct = the tuple.";
     let mut extra = Map::new();
